@@ -91,6 +91,7 @@ structure Out where
   frozen : Option (Option Nat) := none -- some (some k): crashinside k happened; some none: "nocrash"
   bg : List Ev := []
   dump : Bool := false
+  dumpCache : Bool := true             -- false after a crash point: the dead process's memory is not observable
   jar : Option (String × Option ID) := none
   silent : Bool := false               -- the harness prints nothing for this line
   restart : Bool := false
@@ -176,14 +177,16 @@ def apiCall (w : World) (orc : Orc) (run : State → State × RetV × Option Str
     | none => (none, s1, false)
     | some k =>
       if k ≤ muts.length then
-        (some (some k), { s1 with store := (muts.take k).foldl applyMut pre.store }, true)
+        -- the process dies here: the store is what the first k mutations left, and no clean-up goroutine runs any more
+        (some (some k), { s1 with store := (muts.take k).foldl applyMut pre.store, timers := [] }, true)
       else (some none, s1, false)
   let (s3, bg) := advance s2 1
   let w' := { w with st := s3, freezeAt := none, respCookies := w.respCookies ++ cks,
                      crashed := w.crashed || crashed, skip := w.skip || (crashed && w.inReq) }
   let sessOut := if showSess then w.cur.map (fun h => (lookup (s1.obj h).id s1.cache == some h, s1.obj h)) else none
   (w', { t := pre.now, evs := pers, ret := some ret, msg := msg, sess := sessOut, cookies := cks,
-         rng := some rng, faulted := (pers.filter isFailEv).length, frozen := frozen, bg := bg, dump := true })
+         rng := some rng, faulted := (pers.filter isFailEv).length, frozen := frozen, bg := bg, dump := true,
+         dumpCache := !(w.crashed || crashed) })
 
 def resStr : Res → RetV × Option String
   | .nil => (.str "nil", none)
